@@ -9,7 +9,7 @@ META = {
             "unsigned wrap-around as distinct outcomes): for EVERY datagram rfc1035MessageUnpack terminates within a fuel "
             "that does not depend on the datagram (pointer loops included) without out-of-bounds read/write, assertion "
             "failure or wrap-around, and every returned offset stays inside the datagram; a name laid out in the datagram as "
-            "labels optionally ending in compression pointers decodes to its labels joined by dots; a message laid out as "
+            "labels optionally ending in compression pointers (also pointers to a root label) decodes to its labels joined by dots; a message laid out as "
             "header/question/records (with or without compression) decodes to exactly that header, question and A/AAAA/CNAME/"
             "PTR records, in particular the output of the uncompressed and of the owner-compressing reference encoders; "
             "queries built by rfc1035BuildAQuery/BuildPTRQuery/rfc3596Build* decode back to the query they were built for. "
@@ -93,12 +93,12 @@ class Enc:
         self.buf += be16(h["id"]) + be16(t) + be16(h["qd"]) + be16(h["an"]) + be16(h["ns"]) + be16(h["ar"])
 
     def rr(self, r):
-        self.name(r["name"])
+        self.name(r["name"], allow_root_ptr=self.rng.random() < 0.3)
         self.buf += be16(r["type"]) + be16(r["class"]) + be32(r["ttl"])
         if r["type"] in (PTR, CNAME) and "target" in r:
             at = len(self.buf)
             self.buf += b"\0\0"
-            self.name(r["target"])
+            self.name(r["target"], allow_root_ptr=self.rng.random() < 0.3)
             n = len(self.buf) - at - 2
             self.buf[at:at + 2] = be16(n)
         else:
